@@ -533,6 +533,8 @@ def enumerate_schedules(ctx, ex, sc, bound, budget, relevant=None):
                 stats["decisions_of_fair_run"].append(len(dec))
             if dev >= bound:
                 continue
+            if not (r["end"] or "").startswith("ok") or len(dec) > 6000:
+                continue   # a run that hung / hit the step limit has been reported; its tens of thousands of decisions are not branched on
             chosen = [d[0] for d in dec]
             for i in range(len(prefix), len(dec)):
                 for alt in dec[i][1]:
